@@ -202,8 +202,9 @@ func (v objectValidator) keyMatchesNode(node schema.Node, value jbytes.Bytes, pa
 	}
 
 	if node.ConstraintMap().Len() == 0 {
-		// A string without rules: only the example itself.
-		return bytes.Equal(node.Value(), value)
+		// A string without rules: only the example itself, however the example
+		// and the key are spelled ("k1" and "k\u0031" are one string).
+		return bytes.Equal(node.Value().Unquote(), value.Unquote())
 	}
 	return keyObeysRules(node, value)
 }
